@@ -378,11 +378,18 @@ class WritableStream(io.RawIOBase):
                 command |= SIZE_SPECIFIED
                 struct.pack_into("<L", request, 4, size)
             SDO_STRUCT.pack_into(request, 0, command, index, subindex)
-            response = sdo_client.request_response(request)
-            res_command, = struct.unpack_from("B", response)
-            if res_command != RESPONSE_DOWNLOAD:
-                raise SdoCommunicationError(
-                    f"Unexpected response 0x{res_command:02X}")
+            try:
+                response = sdo_client.request_response(request)
+                res_command, = struct.unpack_from("B", response)
+                if res_command != RESPONSE_DOWNLOAD:
+                    raise SdoCommunicationError(
+                        f"Unexpected response 0x{res_command:02X}")
+            except (SdoCommunicationError, SdoAbortedError) as exc:
+                # The transfer was never started, close() must not send
+                # a segment when this object is discarded
+                self._done = True
+                self._error = exc
+                raise
         else:
             # Expedited download
             # Prepare header (first 4 bytes in CAN message)
